@@ -234,7 +234,8 @@ def run(chk, replay=None):
             fc = B.forecast(data / sc, layout=['C', 'F', 'T'][(t // 4) % 3])
             fc.scale(sc)
             if numpy.array(fc.data, dtype=float).tobytes() != numpy.ascontiguousarray(data).tobytes():
-                raise MachineryError('array-scaled forecast does not report the intended rates')
+                # (an answer of the library, not an input of the harness: reported, and the case is evaluated as it stands)
+                chk.violation('trace:%s:array-scaled forecast does not report stored rates x factor' % kind, {'shape': [nc, nb], 't': t})
             chk.nontrivial('array-scale|%s|%d' % (kind, t))
         cat = B.catalog(w, nc, nb, rng)
         nsim = 3 if kind != 'L' else 12
